@@ -6,6 +6,7 @@ import (
 	"go/constant"
 	"go/token"
 	"go/types"
+	"regexp/syntax"
 	"strings"
 
 	"verif/checker/internal/core"
@@ -180,6 +181,12 @@ func ruleE1(scope func(pkgPath string) bool, ruleID string) func(c *core.Ctx) {
 					c.OK(ruleID, key, dc.call.Pos(), "site exception: "+reason)
 					continue
 				}
+				if name == "strconv.Atoi" && len(dc.call.Args) == 1 {
+					if pat, grp, ok := digitsOnlySubmatch(c, info, d.Body, dc.call.Args[0]); ok {
+						c.OK(ruleID, key, dc.call.Pos(), fmt.Sprintf("the argument is capture group %d of the constant regexp `%s`, which matches decimal digits only: Atoi can fail on overflow alone", grp, pat))
+						continue
+					}
+				}
 				if reason, ok := e1AcceptedCallees[name]; ok {
 					if name == "os.Chdir" && dc.how != "defer" {
 						c.Bad(ruleID, key, dc.call.Pos(), "os.Chdir result dropped outside the deferred-restore idiom")
@@ -207,7 +214,6 @@ var _ = token.NoPos
 
 // per-site exceptions to E1: enclosing function + callee -> reason
 var e1SiteExceptions = map[string]string{
-	"internal/validation.NewValidationError/strconv.Atoi":     "digits matched by the regexp `line (\\d+)`; Atoi can only fail on overflow of a YAML line number",
 	"internal/formatting.delimitWithUnderscores/strconv.Atoi": "digits matched by digitGroupSnakeCaseRegex; a failure yields 0 which takes the non-power-of-two branch",
 	"internal/cmd.newInitCommand/fmt.Fprintf":                 "error text to stderr immediately before os.Exit(1)",
 }
@@ -678,4 +684,90 @@ func errStoreIsRead(fc *core.FuncCFG, info *types.Info, as *ast.AssignStmt, obj 
 		return true
 	}
 	return walk(b.Index, start+1)
+}
+
+// digitsOnlySubmatch: e is `m[k]` where m is the single-definition result of FindStringSubmatch on a regexp compiled
+// from a constant, and capture group k of that regexp matches only decimal digits (at least one).
+func digitsOnlySubmatch(c *core.Ctx, info *types.Info, body *ast.BlockStmt, e ast.Expr) (string, int, bool) {
+	ix, ok := ast.Unparen(e).(*ast.IndexExpr)
+	if !ok {
+		return "", 0, false
+	}
+	k, ok := constInt(info, ix.Index)
+	id, isID := ast.Unparen(ix.X).(*ast.Ident)
+	if !ok || !isID || k < 1 {
+		return "", 0, false
+	}
+	rhs := singleDefRHS(info, body, id)
+	ce, ok := ast.Unparen(rhs).(*ast.CallExpr)
+	if !ok {
+		return "", 0, false
+	}
+	f := core.Callee(info, ce)
+	if f == nil || core.FullName(f) != "(regexp.Regexp).FindStringSubmatch" {
+		return "", 0, false
+	}
+	recv := ast.Unparen(ce.Fun).(*ast.SelectorExpr).X
+	var localInit ast.Expr
+	if rid, ok := ast.Unparen(recv).(*ast.Ident); ok {
+		if o := info.ObjectOf(rid); o != nil && o.Parent() != o.Pkg().Scope() {
+			if r := singleDefRHS(info, body, rid); r != ast.Expr(rid) {
+				localInit = r
+			}
+		}
+	}
+	pat, ok := regexpPattern(c, info, recv, localInit)
+	if !ok {
+		return "", 0, false
+	}
+	re, err := syntax.Parse(pat, syntax.Perl)
+	if err != nil {
+		return "", 0, false
+	}
+	var grp *syntax.Regexp
+	var find func(r *syntax.Regexp)
+	find = func(r *syntax.Regexp) {
+		if r.Op == syntax.OpCapture && r.Cap == k {
+			grp = r
+		}
+		for _, s := range r.Sub {
+			find(s)
+		}
+	}
+	find(re)
+	if grp == nil || len(grp.Sub) != 1 {
+		return "", 0, false
+	}
+	var digits func(r *syntax.Regexp, needOne bool) bool
+	digits = func(r *syntax.Regexp, needOne bool) bool {
+		switch r.Op {
+		case syntax.OpCharClass:
+			for i := 0; i+1 < len(r.Rune); i += 2 {
+				if r.Rune[i] < '0' || r.Rune[i+1] > '9' {
+					return false
+				}
+			}
+			return len(r.Rune) > 0
+		case syntax.OpLiteral:
+			for _, ch := range r.Rune {
+				if ch < '0' || ch > '9' {
+					return false
+				}
+			}
+			return len(r.Rune) > 0
+		case syntax.OpPlus:
+			return digits(r.Sub[0], true)
+		case syntax.OpRepeat:
+			return r.Min >= 1 && digits(r.Sub[0], true)
+		case syntax.OpConcat:
+			for _, s := range r.Sub {
+				if !digits(s, true) {
+					return false
+				}
+			}
+			return len(r.Sub) > 0
+		}
+		return false
+	}
+	return pat, k, digits(grp.Sub[0], true)
 }
